@@ -110,7 +110,9 @@ MethodsC06single == { MthP("POST", <<a>>, <<"p1.Item", "error">>, <<E(500)>>, 0)
 CfgsC06 == { Cfg("gin", v, FALSE, NoSec, <<"s1", "oa1">>) : v \in {"3.0.0", "3.1.0"} }
 CtrlsC06 == { Ctl("p1", "f1", "AController", "/a", "A", <<>>) }
 MethodsC06 == { MthP(verb, ps, ret, errs, resp) : verb \in {"POST"}, ps \in ParamLists, ret \in RetShapes,
-                                                    errs \in {<<>>, <<E(500)>>, <<E(400), E(500)>>}, resp \in {0, 201} }
+                                                    errs \in {<<>>, <<E(500)>>, <<E(400), E(500)>>}, resp \in {0, 201, 204} }
+\* the response side on its own: every return shape x every declared success code (incl. 204 on a value-returning method) x error lists
+MethodsC06resp == { MthP("POST", <<>>, ret, errs, resp) : ret \in RetShapes, errs \in {<<>>, <<E(500)>>, <<E(400), E(500)>>}, resp \in {0, 200, 201, 202, 204} }
 
 CfgVal(vt, v) == [engine |-> "gin", version |-> v, enforce |-> FALSE, default |-> NoSec, schemes |-> <<"s1">>,
                   validateTopLevelOnlyEnum |-> vt, generateEnumValidator |-> FALSE, validateResponsePayload |-> FALSE]
